@@ -639,6 +639,8 @@ func (r *runner) touch() {
 	}
 }
 
+var srcWord = map[string]string{"user": "user-layer-value", "default": "default-layer-value", "registered": "registered-default"}
+
 func sourceWord(m *model, key string, got *mv) string {
 	switch {
 	case m.user[key] != nil && m.user[key].equal(got):
@@ -688,7 +690,7 @@ func (r *runner) probe(o *op, last bool) *finding {
 			if f := gateFinding(sp, g.api, got.String()); f != nil {
 				return f
 			}
-			return &finding{clause, site, fmt.Sprintf("getter-returns-%s-instead-of-%s-layer", sourceWord(m, g.key, got), src),
+			return &finding{clause, site, fmt.Sprintf("getter-returns-%s-instead-of-%s", sourceWord(m, g.key, got), srcWord[src]),
 				fmt.Sprintf("after %s: %s(%s) = %s, expected %s (from the %s layer); model %s", opname, g.api, g.key, got, want, src, m)}
 		}
 	}
